@@ -168,19 +168,25 @@ func (rw *Rewriter) Visit(node sql.Node) (w sql.Visitor, n sql.Node, err error) 
 		// If used, ensure the value is same for the duration of the statement
 		jd := julianDayAsNumberLit(rw.nowFn())
 
-		if rw.RewriteTime && len(n.Args) > 0 &&
+		if rw.RewriteTime &&
 			(strings.EqualFold(n.Name.Name, "date") ||
 				strings.EqualFold(n.Name.Name, "time") ||
 				strings.EqualFold(n.Name.Name, "datetime") ||
 				strings.EqualFold(n.Name.Name, "julianday") ||
 				strings.EqualFold(n.Name.Name, "unixepoch")) {
-			if isNow(n.Args[0]) {
+			if len(n.Args) == 0 {
+				// No time value at all means 'now' to SQLite.
+				n.Args = append(n.Args, jd)
+			} else if isNow(n.Args[0]) {
 				n.Args[0] = jd
 			}
 			rw.modified = true
-		} else if rw.RewriteTime && len(n.Args) > 1 &&
+		} else if rw.RewriteTime && len(n.Args) > 0 &&
 			strings.EqualFold(n.Name.Name, "strftime") {
-			if isNow(n.Args[1]) {
+			if len(n.Args) == 1 {
+				// Only a format: the time value defaults to 'now'.
+				n.Args = append(n.Args, jd)
+			} else if isNow(n.Args[1]) {
 				n.Args[1] = jd
 			}
 			rw.modified = true
